@@ -23,7 +23,7 @@ def _sig(kind, params):
 # ------------------------------------------------------------------ cat pool
 
 CAT_BOXES = {"f": ("x", "y", None), "g": ("y", "z", None), "h": ("z", "x", None),
-             "e": ("x", "x", None), "k": ("y", "y", 1), "fd": ("y", "x", "dagger-of-f"),
+             "e": ("x", "x", None), "k": ("y", "y", 1), "z0": ("x", "x", 0), "zl": ("y", "y", []), "fd": ("y", "x", "dagger-of-f"),
              "gd": ("z", "y", "dagger-of-g")}
 
 
